@@ -468,6 +468,10 @@ def realize(node, spec, rz=None):
         g = node.gen_new(c, spec["declare_form"], spec["declare_length"], wrong, longer, spec["key"])
         if spec.get("reordered") and spec["declare_form"]:
             node.gen_declare_form_of(g, declared_as)
+        if spec.get("respelled") and spec["declare_form"]:
+            node.gen_declare_form_of(g, realize(node, spec["respelled"], rz))
+        if spec.get("declared_shorter") is not None:
+            node.gen_declare_length(g, spec["declared_shorter"])
         rz.gens[spec["key"]] = g
         h = node.virtual(g, rz.cache if spec.get("cached", True) else 0, spec["key"])
         rz.virtuals[spec["key"]] = h
@@ -592,6 +596,25 @@ def _first_named_record(s):
     return None
 
 
+def respelled_variant(spec):
+    """the same tree with its first int64/uint64 leaf announcing the other format string of the same type ('q' for
+    'l'): the same Form for every purpose. None when there is no such leaf or VirtualArrays are nested inside."""
+    import copy
+    if virtual_keys(spec):
+        return None
+    d = copy.deepcopy(spec)
+
+    def walk(s):
+        if s["k"] == "numpy" and s["dtype"] in ("int64", "uint64") and not s.get("param"):
+            s["unit"] = "" if s.get("unit") == "alt" else "alt"
+            return True
+        for c in ([s["content"]] if "content" in s else s.get("contents", [])):
+            if walk(c):
+                return True
+        return False
+    return d if walk(d) else None
+
+
 def reordered_variant(spec):
     """the same tree with the fields of its first named record in reverse order: the same value (fields are found by
     name) and a Form that a Form declared in the original order must accept. None when there is no such record or when
@@ -682,6 +705,11 @@ def insert_virtuals(r, spec, nmax, declare_form, declare_length, prefix="k"):
             ro = reordered_variant(s)
             if ro is not None:
                 v["reordered"] = ro
+        elif r.random() < 0.15:
+            # the declared Form spells an 8-byte integer type with the other format string
+            rs = respelled_variant(s)
+            if rs is not None:
+                v["respelled"] = rs
         return v
     root = d
     # wrap deepest first so that parents stay reachable
